@@ -60,12 +60,12 @@ def write_conf(path, root, kind="full", servertype="ThreadingTCPServer", cacheti
 
 
 class Server:
-    def __init__(self, conf, cwd="/", capture_log=False):
+    def __init__(self, conf, cwd="/", capture_log=False, env=None):
         errdir = os.environ.get("PGV_LIVE_STDERR")
         self.errfile = open(os.path.join(errdir, "server-%d-%d.err" % (os.getpid(), id(self))), "wb") if errdir else None
         self.proc = subprocess.Popen([sys.executable, "-W", "ignore", "-c", SERVER_CODE, conf, drive.REPO],
                                      stdout=subprocess.PIPE, stderr=self.errfile or subprocess.DEVNULL, cwd=cwd,
-                                     env=dict(os.environ, PYTHONDONTWRITEBYTECODE="1"))
+                                     env=dict(os.environ, PYTHONDONTWRITEBYTECODE="1", **(env or {})))
         # (with logmethod = file the server's log goes to the same stream; start-up records precede the PORT line)
         self.logs = []
         line = ""
